@@ -163,6 +163,7 @@ class C05(Check):
                                  "recovery:" + type(res["exc"]).__name__)
                     elif [str(t) for t in res["direct"]] != uni0.keys_of_root(ri):
                         out.fail("C05.accept", "recovery: the original valid workspace reads as %s, model %s" % ([str(t) for t in res["direct"]], uni0.keys_of_root(ri)), "recovery-differs")
+            self._api_deprecation_rule(out, rng)
             out.nontrivial = bool(labels)
             out.shape = digest([sorted(labels), sorted(verdicts)])
             for l in labels:
@@ -170,6 +171,51 @@ class C05(Check):
         finally:
             w.close()
         return out
+
+
+def _api_rule(self, out, rng) -> None:
+    """Types that only the public constructors can build (arrays of arrays, which the grammar cannot spell): a non-deprecated
+    composite must not use a deprecated one however many array levels lie between; a deprecated user may."""
+    import pydsdl
+    from pathlib import Path
+    from .base import raised_inside_sut
+
+    def comp(cls, name, attrs, dep):
+        return cls(name=name, version=pydsdl.Version(1, 0), attributes=attrs, deprecated=dep, fixed_port_id=None, source_file_path=Path("api_ns") / (name.split(".")[-1] + ".1.0.dsdl"),
+                   has_parent_service=False)
+    u8 = pydsdl.UnsignedIntegerType(8, pydsdl.PrimitiveType.CastMode.TRUNCATED)
+    old_kind = rng.choice(["struct", "union", "delimited"])
+    old = comp(pydsdl.StructureType, "api_ns.Old", [pydsdl.Field(u8, "a")], True) if old_kind != "union" else comp(pydsdl.UnionType, "api_ns.Old", [pydsdl.Field(u8, "a"), pydsdl.Field(u8, "b")], True)
+    if old_kind == "delimited":
+        old = pydsdl.DelimitedType(old, 64)
+    levels = rng.randint(0, 4)
+    t = old
+    shape = []
+    for _ in range(levels):
+        if rng.random() < 0.5:
+            t = pydsdl.FixedLengthArrayType(t, rng.randint(1, 3)); shape.append("fixed")
+        else:
+            t = pydsdl.VariableLengthArrayType(t, rng.randint(1, 3)); shape.append("var")
+    user_cls = rng.choice([pydsdl.StructureType, pydsdl.UnionType])
+    attrs = lambda: [pydsdl.Field(u8, "first"), pydsdl.Field(t, "uses_old")] + ([pydsdl.Field(u8, "last")] if rng.random() < 0.5 else [])
+    out.stats["api_deprecation_rule:levels=%d" % levels] += 1
+    for dep in (False, True):
+        try:
+            comp(user_cls, "api_ns.User", attrs(), dep)
+            verdict = "accepted"
+        except pydsdl.InvalidDefinitionError:
+            verdict = "rejected"
+        except Exception as ex:
+            if not raised_inside_sut(ex):
+                raise
+            verdict = "raised " + type(ex).__name__
+        want = "accepted" if dep else "rejected"
+        if verdict != want:
+            out.fail("C05.reject" if not dep else "C05.accept", "public constructors: a %s %s with a field of a deprecated %s behind %d array level(s) %s was %s, the rule says %s" % (
+                "deprecated" if dep else "non-deprecated", user_cls.__name__, old_kind, levels, shape, verdict, want), "api-deprecation:%s:%d" % (verdict.split(" ")[0], min(levels, 2)))
+
+
+C05._api_deprecation_rule = _api_rule
 
 
 def _norm(reason: str) -> str:
